@@ -189,3 +189,93 @@ def td_profile(rnd, n_scripts, variants=("mpegts", "fmp4", "ll")):
                         dts[j] += 4096
         out.append({"cfg": cfg, "steps": steps})
     return out
+
+
+# C19 grid: constant sample durations of the leading track
+VIDEO_SD = sorted(set([90000 // f for f in (1, 2, 5, 10, 12, 15, 20, 24, 25, 30, 48, 50, 60, 90, 100, 120)] +
+                      [3003, 1501, 3753, 1876, 750, 751]))           # incl. 1001-based rates
+AAC_SR = [8000, 11025, 12000, 16000, 22050, 24000, 32000, 44100, 48000, 64000, 88200, 96000]
+OPUS_DC = [0, 1, 2, 3]
+
+
+def c19_grid(rnd, n_scripts, full=False):
+    """Constant-rate LL streams: frame-rate x PartMinDuration x SegmentMinDuration x key-frame spacing, video-led
+    and audio-only. Each script is long enough for several segments."""
+    out = []
+    pms = list(range(50, 2001, 50))
+    for i in range(n_scripts):
+        kind = rnd.choice(["v", "v", "v", "aac", "opus"])
+        pm = rnd.choice(pms) if rnd.random() < 0.6 else rnd.choice([50, 100, 200, 200, 250, 500, 1000])
+        sm = rnd.choice([1000, 2000, 4000])
+        if kind == "v":
+            sd = rnd.choice(VIDEO_SD)
+            codec = rnd.choice(VIDEO)
+            cfg = make_cfg(rnd, "ll", tracks=[codec] + rnd.choice([[], [], ["aac"]]), seg_min_ms=sm, part_min_ms=pm, seg_count=7, query="")
+            for t in cfg["tracks"]:
+                if t["codec"] == "aac":
+                    t["rate"] = rnd.choice([44100, 48000, 16000, 8000, 22050, 32000])
+            adelay = rnd.choice([0, 0, 0.3, 0.7, 1.5])
+            rate = 90000
+            gop_t = rnd.choice([0.5, 1, 1, 2, 2.5, 4]) * 90000
+            gop = max(1, int(round(gop_t / sd)))
+        elif kind == "aac":
+            sr = rnd.choice(AAC_SR)
+            cfg = make_cfg(rnd, "ll", tracks=["aac"], seg_min_ms=sm, part_min_ms=pm, seg_count=7, query="")
+            cfg["tracks"][0]["rate"] = sr
+            sd, rate, gop = 1024, sr, 1
+        else:
+            dc = rnd.choice(OPUS_DC)
+            cfg = make_cfg(rnd, "ll", tracks=["opus"], seg_min_ms=sm, part_min_ms=pm, seg_count=7, query="")
+            sd, rate, gop = [480, 960, 1920, 2880][dc], 48000, 1
+        cfg["constSd"] = sd
+        # long enough for ~4 segments (and at least a few parts), bounded
+        seg_t = max(sm / 1000.0, gop * sd / rate)
+        total_t = min(4 * seg_t + 2 * pm / 1000.0, 30.0)
+        n = int(total_t * rate / sd) + 2
+        n = min(n, 1500)
+        steps = []
+        d = rnd.choice([0, 0, -5]) * rate
+        ad = {}
+        for k in range(n):
+            if kind == "v":
+                steps.append({"t": 0, "dts": d, "ra": 1 if k % gop == 0 else 0, "ps": 1 if k % gop == 0 else 0, "size": 8, "n": 1})
+                for j, t in enumerate(cfg["tracks"][1:], start=1):
+                    r = rate_of(t)
+                    ad.setdefault(j, int((d / rate + adelay) * r))
+                    while ad[j] * rate < (d + sd) * r:
+                        steps.append({"t": j, "dts": ad[j], "ra": 1, "ps": 0, "size": 6, "n": 2})
+                        ad[j] += 2048
+            elif kind == "aac":
+                steps.append({"t": 0, "dts": d, "ra": 1, "ps": 0, "size": 6, "n": 1})
+            else:
+                steps.append({"t": 0, "dts": d, "ra": 1, "ps": 0, "size": 6, "n": 1, "dc": [dc]})
+            d += sd
+        out.append({"cfg": cfg, "steps": steps})
+    return out
+
+
+def track_lists(rnd, n_scripts):
+    """C16: track lists Start accepts (any order of video / audio, 1..4 tracks, names / languages / default flags
+    set or not, also IsDefault on the video track), each fed a short stream with a parameter change and a query."""
+    out = []
+    for i in range(n_scripts):
+        v = ("fmp4", "ll", "mpegts")[i % 3] if i % 5 else "fmp4"
+        if v == "mpegts":
+            ts = rnd.choice([["h264"], ["h264", "aac"], ["aac"], ["aac", "h264"]])
+        else:
+            na = rnd.randint(0, 3)
+            ts = [rnd.choice(["aac", "opus"]) for _ in range(na)]
+            if rnd.random() < 0.7 or not ts:
+                ts.insert(rnd.randint(0, len(ts)), "V")
+        cfg = make_cfg(rnd, v, tracks=ts, seg_min_ms=rnd.choice([200, 500]), part_min_ms=100,
+                       query=rnd.choice(["", "tok=a1", "a=1&b=2"]))
+        auds = [t for t in cfg["tracks"] if t["codec"] in ("aac", "opus")]
+        if auds and rnd.random() < 0.5:
+            rnd.choice(auds)["def"] = True
+        for t in cfg["tracks"]:
+            if t["codec"] in VIDEO and rnd.random() < 0.25:
+                t["def"] = True        # documented as "for audio renditions only": must be ignored
+        steps = gen_steps(rnd, cfg, rnd.randint(30, 70), start_s=0, irregular=False, gop=rnd.choice([3, 5]), changes=0.25,
+                          vdur=rnd.choice([9000, 4500]))
+        out.append({"cfg": cfg, "steps": steps})
+    return out
